@@ -1,5 +1,6 @@
-(* C18/ProofsWitness.v — concrete runs: the faithful model refutes `converges` (one witness per
-   class of failure, each outside the other classes), the repaired model handles the same cases. *)
+(* C18/ProofsWitness.v — concrete runs. The code as it is still refutes `converged` when the last
+   text of a document does not parse (known finding); the two repaired defects are pinned by
+   regression witnesses: the histories and interleavings that used to fail now converge. *)
 From Coq Require Import ZArith List Bool Lia.
 From Verif Require Import C18.Model C18.Proofs.
 Import ListNotations.
@@ -9,62 +10,60 @@ Definition good (i : Z) : text := mkText i true [].
 Definition bad (i : Z) : text := mkText i false [].
 Definition good_imp (i : Z) (us : list uri) : text := mkText i true us.
 
-(* open v1, change v2 on one document; v1's store segment runs last *)
-Definition h_stale : list note := [Doc true 0 1 (good 1); Doc false 0 2 (good 2)].
-Definition s_stale : list nat := [0; 1; 0; 1; 1; 1; 0; 0]%nat.
-(* open, close, reopen; the first open's store runs after everything else *)
-Definition h_reopen : list note := [Doc true 0 1 (good 1); Close 0; Doc true 0 1 (good 3)].
-Definition s_reopen : list nat := [0; 0; 1; 1; 1; 2; 2; 2; 2; 0; 0]%nat.
 (* open v1 (valid), change v2 (syntax error), handlers one after the other *)
 Definition h_syntax : list note := [Doc true 0 1 (good 1); Doc false 0 2 (bad 2)].
-Definition s_syntax : list nat := [0; 0; 0; 0; 1; 1]%nat.
-(* open B, then open A which imports B, one after the other: A's handler republishes B *)
+Definition s_syntax : list nat := [0; 0; 0; 0; 1; 1; 1]%nat.
+
+(* FORMER witness of lsp-stale-store: open v1, change v2; v1's handler reaches its store last.
+   Before the repair the run continued with v1's publish (schedule ++ [0]). *)
+Definition h_stale : list note := [Doc true 0 1 (good 1); Doc false 0 2 (good 2)].
+Definition s_stale : list nat := [0; 1; 0; 1; 1; 1; 0]%nat.
+(* FORMER witness: open, close, reopen; the first open's store comes after everything else *)
+Definition h_reopen : list note := [Doc true 0 1 (good 1); Close 0; Doc true 0 1 (good 3)].
+Definition s_reopen : list nat := [0; 0; 1; 1; 1; 2; 2; 2; 2; 0]%nat.
+(* a late close must not remove the reopened document *)
+Definition s_late_close : list nat := [0; 0; 0; 0; 1; 2; 2; 2; 2; 1]%nat.
+(* FORMER witness of lsp-dep-republish: open B, then open A which imports B *)
 Definition h_dep : list note := [Doc true 1 1 (good 5); Doc true 0 1 (good_imp 3 [1])].
 Definition s_dep : list nat := [0; 0; 0; 0; 1; 1; 1; 1; 1]%nat.
-
-Ltac run_it := eexists; split; [vm_compute; reflexivity|]; split; [vm_compute; reflexivity|].
-
-Lemma stale_overwrites_refuted :
-  exists st, run Faithful h_stale s_stale = Some st /\ quiescentb h_stale st = true /\ ~ converged h_stale st.
-Proof.
-  run_it. intros C. specialize (C 0). vm_compute in C. destruct C as [C _]. discriminate C.
-Qed.
-Lemma stale_class :
-  Known_C18_stale_store h_stale s_stale /\ ~ Known_C18_error_keeps_old h_stale /\ ~ Known_C18_dep_republish h_stale.
-Proof. split; [vm_compute; reflexivity|]. split; intros C; vm_compute in C; discriminate C. Qed.
-
-Lemma reopen_after_close_refuted :
-  exists st, run Faithful h_reopen s_reopen = Some st /\ quiescentb h_reopen st = true /\ ~ converged h_reopen st.
-Proof.
-  run_it. intros C. specialize (C 0). vm_compute in C. destruct C as [C _]. discriminate C.
-Qed.
-Lemma reopen_class :
-  Known_C18_stale_store h_reopen s_reopen /\ ~ Known_C18_error_keeps_old h_reopen /\ ~ Known_C18_dep_republish h_reopen.
-Proof. split; [vm_compute; reflexivity|]. split; intros C; vm_compute in C; discriminate C. Qed.
 
 Lemma syntax_error_keeps_old_text_refuted :
   exists st, run Faithful h_syntax s_syntax = Some st /\ quiescentb h_syntax st = true /\ ~ converged h_syntax st.
 Proof.
-  run_it. intros C. specialize (C 0). vm_compute in C. destruct C as [C _]. discriminate C.
+  eexists; split; [vm_compute; reflexivity|]; split; [vm_compute; reflexivity|].
+  intros C. specialize (C 0). vm_compute in C. destruct C as [C _]. discriminate C.
 Qed.
-Lemma syntax_class :
-  Known_C18_error_keeps_old h_syntax /\ ~ Known_C18_stale_store h_syntax s_syntax /\ ~ Known_C18_dep_republish h_syntax.
-Proof. split; [vm_compute; reflexivity|]. split; intros C; vm_compute in C; discriminate C. Qed.
+Lemma syntax_class : Known_C18_error_keeps_old h_syntax.
+Proof. vm_compute; reflexivity. Qed.
 
-Lemma dep_republish_refuted :
-  exists st, run Faithful h_dep s_dep = Some st /\ quiescentb h_dep st = true /\ ~ converged h_dep st.
-Proof.
-  run_it. intros C. specialize (C 1). vm_compute in C. destruct C as [_ C]. discriminate C.
-Qed.
-Lemma dep_class :
-  Known_C18_dep_republish h_dep /\ ~ Known_C18_stale_store h_dep s_dep /\ ~ Known_C18_error_keeps_old h_dep.
-Proof. split; [vm_compute; reflexivity|]. split; intros C; vm_compute in C; discriminate C. Qed.
+Ltac regress u :=
+  eexists; split; [vm_compute; reflexivity|]; split; [vm_compute; reflexivity|];
+  vm_compute; repeat split; reflexivity.
 
-(* the same histories in the repaired model: the stale handler's store is skipped, so the same
-   interleaving is one step shorter; the schedule below is its counterpart *)
-Lemma repaired_runs_stale :
-  exists st, run Repaired h_stale [0; 1; 0; 1; 1; 1; 0]%nat = Some st /\ quiescentb h_stale st = true.
-Proof. eexists; split; vm_compute; reflexivity. Qed.
+(* the stale handler finds its ticket superseded: it ends at its store step, nothing is overwritten *)
+Lemma stale_store_regression :
+  exists st, run Faithful h_stale s_stale = Some st /\ quiescentb h_stale st = true /\
+             docs st 0 = Some (2, good 2) /\ last_pub (pubs st) 0 = Some (own_pub 0 2 (good 2)).
+Proof. regress 0. Qed.
+Lemma stale_old_schedule_ends : run Faithful h_stale (s_stale ++ [0%nat]) = None.
+Proof. vm_compute; reflexivity. Qed.
+
+Lemma reopen_regression :
+  exists st, run Faithful h_reopen s_reopen = Some st /\ quiescentb h_reopen st = true /\
+             docs st 0 = Some (1, good 3) /\ last_pub (pubs st) 0 = Some (own_pub 0 1 (good 3)).
+Proof. regress 0. Qed.
+Lemma late_close_regression :
+  exists st, run Faithful h_reopen s_late_close = Some st /\ quiescentb h_reopen st = true /\
+             docs st 0 = Some (1, good 3) /\ last_pub (pubs st) 0 = Some (own_pub 0 1 (good 3)).
+Proof. regress 0. Qed.
+
+(* analysing the importer publishes nothing for the open dependency *)
+Lemma dep_republish_regression :
+  exists st, run Faithful h_dep s_dep = Some st /\ quiescentb h_dep st = true /\
+             docs st 1 = Some (1, good 5) /\ last_pub (pubs st) 1 = Some (own_pub 1 1 (good 5)) /\
+             length (pubs st) = 2%nat.
+Proof. regress 1. Qed.
+
 Lemma repaired_runs_syntax :
   exists st, run Repaired h_syntax [0; 0; 0; 0; 1; 1; 1]%nat = Some st /\ quiescentb h_syntax st = true.
 Proof. eexists; split; vm_compute; reflexivity. Qed.
